@@ -46,6 +46,7 @@ package balance
 //@                                   (typeis(err, LowBalanceError) <==> b.MinBalance != nil && store.spendable(b.Store, node.ID) < bigval(b.MinBalance))
 //@ ensures [no-charge-no-cut-off] {C03} b.Store.loglen == old(b.Store.loglen) ==> !typeis(err, LowBalanceError)
 //@ ensures [reports-actual] {C03}  typeis(err, LowBalanceError) ==> bigval(err.(LowBalanceError).CurrentBalance) == store.spendable(b.Store, node.ID)
+//@ ensures [manager-keeps-no-per-request-state] {C10} old(b.now) != nil ==> *b == old(*b)
 //@ loop 0 invariant [total]   b.Store.total == old(b.Store.total) + bigval(total)
 //@ loop 0 invariant [count]   b.Store.loglen - old(b.Store.loglen) <= rangeidx && b.Store.loglen >= old(b.Store.loglen)
 //@ loop 0 invariant [none-yet] b.Store.loglen == old(b.Store.loglen) ==> bigval(total) == 0 && store.sameCredit(b.Store)
